@@ -213,6 +213,28 @@ def check_law(mon, rng, make, label, correlated):
         mon.violation("noise:not-gaussian", f"{label}: whitened kurtosis {k4}", case)
 
 
+def check_law_single_points(mon, rng, make, label):
+    """the same law through many single-point (1-D) calls: the 1-D reshape path must add the same noise"""
+    prob, x, mean, m = make()
+    L = np.asarray(prob.noise_cholesky)
+    Sigma = L @ L.T
+    n = 4000
+    np.random.seed(int(rng.integers(2**31)))
+    x1 = np.asarray(x, float).reshape(-1)
+    Y = np.array([np.asarray(prob.evaluate(x1.copy())).reshape(-1) for _ in range(n)])
+    mon.count("law_single_point_events")
+    mon.event(case_hash("law1", Sigma, label), True, f"law/{label}/single-point")
+    if Y.shape != (n, m):
+        mon.violation("noise:shape", f"{label}: single-point evaluations have shape {Y.shape[1:]}", {"label": label})
+        return
+    R = Y - mean
+    zmu = np.abs(R.mean(0)) / np.sqrt(np.diag(Sigma) / n)
+    C = R.T @ R / n
+    zC = np.abs(C - Sigma) / np.sqrt((np.outer(np.diag(Sigma), np.diag(Sigma)) + Sigma**2) / n)
+    if zmu.max() > NSE or zC.max() > NSE:
+        mon.violation("noise:single-point-law", f"{label}: 1-D queries: mean off {zmu.max():.1f} s.e., covariance off {zC.max():.1f} s.e.", {"label": label})
+
+
 def check_chol_direct(mon, rng):
     from vopy.utils import get_noisy_evaluations_chol
 
@@ -386,4 +408,7 @@ def shard(mon, tier, rng, shard_no, nshards):
 
         if j % 2 == 1:
             check_law(mon, rng, make_bc, "BraninCurrin", correlated=bool(rng.random() < 0.5))
+            check_law_single_points(mon, rng, make_bc, "BraninCurrin")
+        else:
+            check_law_single_points(mon, rng, make_ds, "dataset")
         check_chol_direct(mon, rng)
